@@ -66,6 +66,7 @@ fn validate_method(ctx: &Context, input: &DeriveInput) -> TokenStream {
 
                     let tag = { #validate_tag };
                     let data = unsafe { __flatty_bytes.get_unchecked(Self::DATA_OFFSET..) };
+                    let data = unsafe { data.get_unchecked(..::flatty::utils::floor_mul(data.len(), Self::ALIGN)) };
 
                     #size_check
 
